@@ -224,4 +224,96 @@ theorem steps_get (steps : List (Name × Nat)) (m : QMap) (k : Name) :
       · rintro (h | h); exact Or.inl h; exact Or.inr (Or.inr h)
       · rintro (h | h | h); exact Or.inl h; exact absurd h.symm hk; exact Or.inr h
 
+/-! ### distinctness of bit names -/
+
+theorem sub_inj (b : Name) {i j : Nat} (h : b.sub i = b.sub j) : i = j := by
+  have := congrArg Name.path h
+  simpa [Name.sub] using this
+
+theorem subNames_nodup (b : Name) (n : Nat) : (subNames b n).Nodup := by
+  unfold subNames
+  rw [List.nodup_iff_pairwise_ne, List.pairwise_map]
+  exact (List.nodup_range (n := n)).imp (fun hne h => hne (sub_inj b h))
+
+theorem mem_subNames {b n : Name} {w : Nat} (h : n ∈ subNames b w) :
+    n.base = b.base ∧ b.path <+: n.path := by
+  simp only [subNames, List.mem_map] at h
+  obtain ⟨i, _, rfl⟩ := h
+  exact ⟨rfl, by simp [Name.sub]⟩
+
+mutual
+theorem argNames_prefix : ∀ (t : QTy) (b n : Name), n ∈ argNames t b →
+    n.base = b.base ∧ b.path <+: n.path
+  | .bool, b, n, h => by simp [argNames] at h; subst h; exact ⟨rfl, List.prefix_refl _⟩
+  | .qint w, b, n, h => mem_subNames (by simpa [argNames] using h)
+  | .qchar, b, n, h => mem_subNames (by simpa [argNames] using h)
+  | .qfixed i f, b, n, h => mem_subNames (by simpa [argNames] using h)
+  | .tuple ts, b, n, h => by
+      obtain ⟨hb, j, _, hp⟩ := argNamesList_prefix ts b 0 n (by simpa [argNames] using h)
+      exact ⟨hb, List.IsPrefix.trans (List.prefix_append _ _) hp⟩
+theorem argNamesList_prefix : ∀ (ts : List QTy) (b : Name) (k : Nat) (n : Name),
+    n ∈ argNamesList ts b k → n.base = b.base ∧ ∃ j, k ≤ j ∧ (b.path ++ [j]) <+: n.path
+  | [], _, _, _, h => by simp [argNamesList] at h
+  | t :: ts, b, k, n, h => by
+      simp only [argNamesList, List.mem_append] at h
+      rcases h with h | h
+      · obtain ⟨hb, hp⟩ := argNames_prefix t (b.sub k) n h
+        exact ⟨hb, k, Nat.le_refl _, hp⟩
+      · obtain ⟨hb, j, hj, hp⟩ := argNamesList_prefix ts b (k + 1) n h
+        exact ⟨hb, j, by omega, hp⟩
+end
+
+mutual
+/-- the bit names of one argument are pairwise distinct -/
+theorem argNames_nodup : ∀ (t : QTy) (b : Name), (argNames t b).Nodup
+  | .bool, b => by simp [argNames]
+  | .qint w, b => subNames_nodup b w
+  | .qchar, b => subNames_nodup b 8
+  | .qfixed i f, b => subNames_nodup b (i + f)
+  | .tuple ts, b => by simpa [argNames] using argNamesList_nodup ts b 0
+theorem argNamesList_nodup : ∀ (ts : List QTy) (b : Name) (k : Nat), (argNamesList ts b k).Nodup
+  | [], _, _ => by simp [argNamesList]
+  | t :: ts, b, k => by
+      simp only [argNamesList]
+      rw [List.nodup_append]
+      refine ⟨argNames_nodup t _, argNamesList_nodup ts b (k + 1), ?_⟩
+      intro x hx y hy hxy
+      subst hxy
+      obtain ⟨_, hp1⟩ := argNames_prefix t (b.sub k) x hx
+      obtain ⟨_, j, hj, hp2⟩ := argNamesList_prefix ts b (k + 1) x hy
+      have := List.prefix_of_prefix_length_le hp1 hp2 (by simp [Name.sub])
+      have := this.eq_of_length (by simp [Name.sub])
+      simp [Name.sub] at this
+      omega
+end
+
+theorem mem_inputSymbols_base (sig : List (String × QTy)) (x : Name)
+    (h : x ∈ inputSymbols (translateArguments sig)) : x.base ∈ sig.map (·.1) := by
+  induction sig with
+  | nil => simp [translateArguments, inputSymbols] at h
+  | cons a r ih =>
+    simp only [translateArguments, List.map_cons, inputSymbols, List.mem_append] at h ih ⊢
+    rcases h with h | h
+    · have := (argNames_prefix a.2 ⟨a.1, []⟩ x (by simpa [translateArgument] using h)).1
+      simp [this]
+    · exact List.mem_cons_of_mem _ (ih h)
+
+/-- distinct argument names give pairwise distinct input bit names -/
+theorem inputSymbols_nodup (sig : List (String × QTy)) (h : (sig.map (·.1)).Nodup) :
+    (inputSymbols (translateArguments sig)).Nodup := by
+  induction sig with
+  | nil => simp [translateArguments, inputSymbols]
+  | cons a r ih =>
+    have hc : a.1 ∉ r.map (·.1) ∧ (r.map (·.1)).Nodup := by
+      rw [List.map_cons] at h; exact List.nodup_cons.mp h
+    simp only [translateArguments, List.map_cons, inputSymbols] at ih ⊢
+    rw [List.nodup_append]
+    refine ⟨by simpa [translateArgument] using argNames_nodup a.2 ⟨a.1, []⟩, ih hc.2, ?_⟩
+    intro x hx y hy hxy
+    subst hxy
+    have h1 := (argNames_prefix a.2 ⟨a.1, []⟩ x (by simpa [translateArgument] using hx)).1
+    have h2 := mem_inputSymbols_base r x (by simpa [translateArguments] using hy)
+    rw [h1] at h2
+    exact hc.1 h2
+
 end QV.Codec
